@@ -90,3 +90,75 @@ func NTSOpenRequest(pkt []byte, key []byte) bool {
 	}
 	return false
 }
+
+// NTSRequest builds an NTS client request: header | unique id | one cookie | np placeholders
+// (type 0x0304, zero body of the cookie's length) | authenticator under key.
+func NTSRequest(hdr, uid, cookie []byte, np int, key []byte) []byte {
+	pkt := append([]byte{}, hdr[:48]...)
+	pkt = append(pkt, ntsExt(0x0104, uid)...)
+	pkt = append(pkt, ntsExt(0x0204, cookie)...)
+	for i := 0; i < np; i++ {
+		pkt = append(pkt, ntsExt(0x0304, make([]byte, len(cookie)))...)
+	}
+	nonce := make([]byte, 16)
+	_, _ = rand.Read(nonce)
+	aead, err := miscreant.NewAEAD("AES-CMAC-SIV", key, 16)
+	if err != nil {
+		panic(err)
+	}
+	ct := aead.Seal(nil, nonce, nil, pkt)
+	body := make([]byte, 4, 4+16+len(ct))
+	binary.BigEndian.PutUint16(body, 16)
+	binary.BigEndian.PutUint16(body[2:], uint16(len(ct)))
+	body = append(body, nonce...)
+	body = append(body, ct...)
+	return append(pkt, ntsExt(0x0404, body)...)
+}
+
+// NTSOpenResponse verifies a server response under key, checks the unique id and returns
+// the cookies from the encrypted extension fields. problem is "" when everything is in order.
+func NTSOpenResponse(pkt, key, uid []byte) (cookies [][]byte, problem string) {
+	var gotUID []byte
+	fs := ParseNTSFields(pkt)
+	for _, f := range fs {
+		switch f.Type {
+		case 0x0104:
+			gotUID = f.Body
+		case 0x0404:
+			if f.Body == nil || len(f.Body) < 4 {
+				return nil, "authenticator field truncated"
+			}
+			nl := int(binary.BigEndian.Uint16(f.Body))
+			cl := int(binary.BigEndian.Uint16(f.Body[2:]))
+			np := (nl + 3) &^ 3
+			if nl != 16 || 4+np+cl > len(f.Body) {
+				return nil, "authenticator lengths do not fit the field"
+			}
+			if string(gotUID) != string(uid) {
+				return nil, "unique identifier differs from the request's"
+			}
+			aead, err := miscreant.NewAEAD("AES-CMAC-SIV", key, 16)
+			if err != nil {
+				return nil, err.Error()
+			}
+			plain, err := aead.Open(nil, f.Body[4:4+nl], f.Body[4+np:4+np+cl], pkt[:f.Off])
+			if err != nil {
+				return nil, "authenticator does not verify under the server-to-client key"
+			}
+			pos := 0
+			for pos+4 <= len(plain) {
+				t := binary.BigEndian.Uint16(plain[pos:])
+				l := int(binary.BigEndian.Uint16(plain[pos+2:]))
+				if l < 4 || pos+l > len(plain) {
+					return cookies, "encrypted extension fields malformed"
+				}
+				if t == 0x0204 {
+					cookies = append(cookies, append([]byte{}, plain[pos+4:pos+l]...))
+				}
+				pos += l
+			}
+			return cookies, ""
+		}
+	}
+	return nil, "no authenticator field found (reply truncated or not an NTS reply)"
+}
